@@ -132,6 +132,20 @@ Definition build_ape (version seek_bytes wav_bytes audio_bytes compression forma
   le_encode 4 final_frame_blocks ++ le_encode 4 total_frames ++ le_encode 2 bits ++ le_encode 2 channels ++
   le_encode 4 rate.
 
+(* SPEC (APE_HEADER_OLD, version < 3.98, MAC SDK APEHeader.cpp AnalyzeOld): 'MAC ', u16 version, u16 compression level,
+   u16 format flags, u16 channels, u32 sample rate, u32 header bytes, u32 terminating bytes, u32 total frames,
+   u32 final frame blocks; no stored WAVE header here (zero filled to 76 bytes).  Blocks per frame: 73728 * 4 from 3.95 on,
+   73728 from 3.90 on and for 3.80-3.89 at COMPRESSION_LEVEL_EXTRA_HIGH (4000), otherwise 9216 *)
+Definition build_ape_old (version compression format_flags channels rate header_bytes terminating_bytes
+                          total_frames final_frame_blocks : Z) : list Z :=
+  ascii_MAC_ ++ le_encode 2 version ++ le_encode 2 compression ++ le_encode 2 format_flags ++ le_encode 2 channels ++
+  le_encode 4 rate ++ le_encode 4 header_bytes ++ le_encode 4 terminating_bytes ++ le_encode 4 total_frames ++
+  le_encode 4 final_frame_blocks ++ repeat 0 44%nat.
+Definition spec_ape_old_blocks_per_frame (version compression : Z) : Z :=
+  if version >=? 3950 then 294912
+  else if (version >=? 3900) || ((version >=? 3800) && (compression =? 4000)) then 73728
+  else 9216.
+
 (* CODE: MonkeysAudioInfo.__init__; result: [version (x1000); channels; sample_rate; bits_per_sample;
    length numerator; length denominator] *)
 Definition decode_ape (f : list Z) : result (list Z) :=
@@ -146,7 +160,7 @@ Definition decode_ape (f : list Z) : result (list Z) :=
       else
         let compression_level := le_at 6 2 header in
         let bpf := if version >=? 3950 then 73728 * 4
-                   else if (version >=? 3900) || ((version >=? 3800) && (compression_level =? 4)) then 73728
+                   else if (version >=? 3900) || ((version >=? 3800) && (compression_level =? 4000)) then 73728
                    else 9216 in
         let bits := if starts_with ascii_WAVEfmt (skipn 48 header) then le_at 74 2 header else 0 in
         (bpf, le_at 28 4 header, le_at 24 4 header, bits, le_at 10 2 header, le_at 12 4 header) in
